@@ -1,2 +1,53 @@
-"""C01 is decided by the shared Integer pipeline (checks/integer.py)."""
-from .integer import run  # noqa: F401
+"""C01 — big-integer operations are exact over Z, identically across all overloads.
+
+Part 1 (translation tie): the shared Integer pipeline (checks/integer.py): one theorem per overload whose body lies in the
+translator's dialect, regenerated from the source on every run.
+Part 2 (correspondence tie): the overloads outside the dialect -- comparisons of an Integer with float/double (24 operators,
+absCompare), fact, limb access and limb-vector conversions, length, size_in_base, isperfectpower, pp -- are transcribed by hand
+(Model/IntegerExtra.lean), their meaning is proved in Props/C01Extra.lean (exact comparison with the rational value of the double for
+every integer and every finite double, agreement with the Integer overload, factorial, limb round trips, pp), and
+harness/h_integer_x.cpp runs the real functions on boundary grids (the doubles adjacent to each integer, subnormals, infinities)."""
+import json
+
+from vlib import flow
+from . import integer
+
+
+def run(prop, tier, seed, replay=None):
+    V = integer.run(prop, tier, seed, replay=replay, finish=False)
+    part1 = dict(V.coverage)
+    L = flow.lean_stage(V, ["GivaroModel.Props.C01Extra"], "GivaroModel/Props/C01Extra.lean")
+    bins = flow.build_harnesses("h_integer_x", configs=("S", "R"))
+    lines = None
+    if replay:
+        try:
+            lines = [l.split(" = ")[0] for l in json.load(open(replay)).get("lines", []) if l and l.split(" ")[0] in
+                     ("cd", "cf", "acd", "acf", "fact", "limb", "len", "vec", "ofvec", "sib", "ipp", "pp")]
+        except Exception:
+            lines = []
+    if lines is None or lines:
+        res = flow.correspond(bins, "integer_x", lines=lines, harness_args=(["replay"] if lines is not None else [tier, str(seed)]))
+    else:
+        res = dict(results=[], crashes=[])
+    counts = flow.decide(V, res, known=())
+    by_key = {}
+    for _, l, _ in res["results"]:
+        by_key[l.split(" ", 1)[0]] = by_key.get(l.split(" ", 1)[0], 0) + 1
+    cov = part1
+    cov["obligations"] = cov.get("obligations", 0) + len(L["theorems"])
+    cov["discharged"] = cov.get("discharged", 0) + L["proved"]
+    cov["property_theorems"] = list(cov.get("property_theorems", [])) + L["theorems"]
+    cov["evaluations"] = cov.get("evaluations", 0) + len(res["results"])
+    cov["part2_outside_dialect"] = {
+        "lines_by_key": by_key, "ok": counts.get("OK", 0), "precondition_rejected": counts.get("PRE", 0), "disagreements": counts.get("DIFF", 0),
+        "rule": "every integer of a boundary grid (0, ±1, ±2^k±1 for k around the float/double mantissa and the limb sizes, random multi-limb) × "
+                "the doubles/floats adjacent to it ((double)z and its two neighbours) and a fixed list (±0, subnormals, 2^53, 2^63, 2^64, DBL_MAX, ±inf) × "
+                "12 operators on each side; factorials 0…120 (300 thorough); limb vectors with leading zero limbs; perfect powers b^e±1; pp on "
+                "products of small primes of both signs; NaN is outside GMP's contract (PRE)",
+        "theorems": L["theorems"], "configs": sorted(bins)}
+    V.coverage = cov
+    V.assumptions = list(V.assumptions) + [
+        "Part 2: the bodies are hand transcriptions (each is one GMP call or a short loop); `mpz_cmp_d`/`mpz_cmpabs_d` by their documented contract "
+        "(exact comparison, no rounding of the integer; infinities ordered; NaN undefined), `mpz_perfect_power_p` and `mpz_sizeinbase` "
+        "judged by reference functions of the driver, not by a theorem; the tie to the code is the correspondence only"]
+    V.finish()
